@@ -386,6 +386,8 @@ def consumer_reads_producer_fields(ctx, rule='consumer-reads-what-producer-write
 PRODUCER_EXEMPT = {
     ('Subquery', 'outer_ref_columns'): 'derived: the consumer recomputes it from the decoded subquery plan (all_out_ref_exprs)',
     ('SubqueryAlias', 'alias'): 'Substrait relations carry no relation names; the consumer resolves columns by position and the root names restore the output names',
+    ('Unnest', 'outer'): 'Expr::Unnest is refused by the producer (not_impl_err); the only read of the node is the error message',
+    ('ScalarVariable', '1'): 'Expr::ScalarVariable is refused by the producer (not_impl_err)',
     ('Explain', 'stringified_plans'): 'EXPLAIN is refused by the producer',
     ('Explain', 'logical_optimization_succeeded'): 'EXPLAIN is refused by the producer',
     ('TableScan', 'statistics_requests'): 'optimizer hint for statistics collection, does not change rows',
@@ -402,9 +404,9 @@ def producer_reads_plan_fields(ctx):
     import protocov
     rule = 'producer-reads-every-field'
     n = protocov.check_encoder_reads(ctx, 'LogicalPlan', SP + 'producer::rel::to_substrait_rel', 'datafusion_expr::logical_plan::plan::LogicalPlan', rule=rule,
-                                     exempt=PRODUCER_EXEMPT, follow=PRODUCER_FOLLOW, per_variant=False, follow_derived=True)
+                                     exempt=PRODUCER_EXEMPT, follow=PRODUCER_FOLLOW, per_variant=False)
     n += protocov.check_encoder_reads(ctx, 'Expr', SP + 'producer::expr::to_substrait_rex', 'datafusion_expr::expr::Expr', rule=rule,
-                                      exempt=PRODUCER_EXEMPT, follow=PRODUCER_FOLLOW, per_variant=False, follow_derived=True)
+                                      exempt=PRODUCER_EXEMPT, follow=PRODUCER_FOLLOW, per_variant=False)
     ctx.floor(rule, 'plan / expression structs the producer reads', n, 20)
     import common
     st = ctx.st
